@@ -23,6 +23,9 @@ CHECKS = {
  "C08": ("exploration", "five-channel handshake logs with unique ids paired offline + online stability / grant-lock monitors, per master timing class",
          "AXI-Lite and AXI4 shared interconnects and crossbars (1..3 x 1..3) under master BFMs of four timing classes (A LiteX-like, B data before address, C several outstanding, D heavy response back-pressure) and slave BFMs that accept AW/W/AR independently, queue and answer in order with random delay/resp. Class A and D must be violation-free outright; violations in B/C are named by root-cause classifiers over the recorded history.",
          "trusted: simulator, BFMs in lib/bench/axil.py and lib/bench/axi.py, AMBA address model lib/models/axi.py", "4 C08"),
+ "C11": ("fault_enumeration", "fault-instant sweep (mute slave / slow slave at T-2..T / unmapped address) with termination-latency, error-indication and recovery monitors",
+         "For Wishbone, AXI-Lite and AXI4 (Timeout alone, shared interconnect, crossbar) and T in {1,2,3,5,8,16} the cycle at which a slave goes mute is swept over every cycle (every third in quick) of a short multi-master history, per fault kind (all channels / responses only / address acceptance only); slow healthy slaves answer at T-2..T including the expiry cycle. Every request must terminate exactly once, timed-out ones at the configured latency with the bus's error indication, answered ones unmodified, and the history must complete. WaitTimer against a cycle-exact reference; SoCController.bus_errors wired as in SoC.finalize (increment per timeout, saturation by presetting the counter).",
+         "trusted: simulator, BFMs; c_bus constants stated in the check; faulty slaves stay mute for ever", "4 C11"),
 }
 
 def main():
